@@ -563,3 +563,61 @@ class Search_find_all(Contract):
         if flat is None:
             raise Unsupported("the result is not a list of containers the contract can flatten")
         return [("result_is_the_flat_map_of_find_over_the_trees", flat == FMf(a["self"].ident, a["trees"].ghost["seq"], cx.ghost["scope_id"]))]
+
+
+# ------------------------------------------------------------------------------------------------ base[items]
+
+import contracts.tree as _tree_contracts  # noqa: E402  (call-site contract of DerivationTree.__getitem__)
+
+ItemOf = _tree_contracts.ItemOf
+MapItems = z3.Function("MapItems", I, IS, IS)          # (index expression, S) -> [ItemOf(t, index expression) for t in S]
+
+
+def _map_items_def(cx, sid, seq):
+    """definition of MapItems, instantiated for the sequence at hand"""
+    k = z3.Int(cx._name("mi"))
+    cx.assume(z3.Length(MapItems(sid, seq)) == z3.Length(seq))
+    cx.assume(ForAll([k], Implies(And(k >= 0, k < z3.Length(seq)), MapItems(sid, seq)[k] == ItemOf(seq[k], sid))))
+
+
+class _Item(Contract):
+    """base[items]: one Tree container per tree matched by the base, holding that tree's item; find uses the base's find,
+    find_direct the base's find_direct"""
+    properties = ("C07",)
+    float_mode = "real"
+    cases = ("no_scope", "scope")
+    base_fn = None
+
+    def inputs(self, cx, case):
+        s = search_obj(cx, "ItemSearch", "self")
+        s.fields["base"] = search_obj(cx, "NonTerminalSearch", "self.base")
+        sl = cx.opaque("slices")
+        s.fields["slices"] = sl
+        a = {"self": s, "tree": some_tree(cx), "scope": scope_input(cx, case), "population": None}
+        cx.ghost["scope_id"] = scope_id(a)
+        cx.ghost["inline_ok"] = {f"{SEARCH}:ItemSearch._find"}
+        return a
+
+    def ensures(self, cx, a, r):
+        flat = flat_of(r)
+        if flat is None:
+            raise Unsupported("the result is not a list of containers the contract can flatten")
+        s = a["self"]
+        base = type(self).base_fn(s.fields["base"].ident, a["tree"].ident, cx.ghost["scope_id"])
+        sid = s.fields["slices"].ident
+        k = z3.Int(cx._name("ik"))
+        # stated pointwise (sequence extensionality is not something the solvers do unprompted)
+        return [("one_container_per_tree_matched_by_the_base", z3.Length(flat) == z3.Length(base)),
+                ("container_k_holds_the_item_of_the_k_th_match", ForAll([k], Implies(And(k >= 0, k < z3.Length(base)), flat[k] == ItemOf(base[k], sid))))]
+
+
+@register
+class ItemSearch_find(_Item):
+    target = f"{SEARCH}:ItemSearch.find"
+    base_fn = FindS
+
+
+@register
+class ItemSearch_find_direct(_Item):
+    target = f"{SEARCH}:ItemSearch.find_direct"
+    base_fn = FindDirectS
